@@ -67,6 +67,131 @@ def children_owner(e):
     return None
 
 
+def worklist_form(fi, nparam):
+    """the explicit-stack form of the walk: W = [n]; while W: cur = W.pop(); ...; W.extend(reversed(cur.children)).
+    Returns dict(loop, work, cur, pops=[(call, kind)], pushes=[(stmt, owner expr, reversed?)]) or None"""
+    work = None
+    for a in ast.walk(fi.node):
+        if isinstance(a, ast.Assign) and len(a.targets) == 1 and isinstance(a.targets[0], ast.Name):
+            v = a.value
+            if isinstance(v, ast.Call) and isinstance(v.func, (ast.Name, ast.Attribute)) and norm(v.func) in ("deque", "collections.deque", "list") and len(v.args) == 1:
+                v = v.args[0]
+            if isinstance(v, (ast.List, ast.Tuple)) and len(v.elts) == 1 and isinstance(v.elts[0], ast.Name) and v.elts[0].id == nparam:
+                work = a.targets[0].id
+    if work is None:
+        return None
+    loop = None
+    for lp in ast.walk(fi.node):
+        if isinstance(lp, ast.While):
+            t = lp.test
+            if (isinstance(t, ast.Name) and t.id == work) or (isinstance(t, ast.Compare) and work in norm(t) and "len(" in norm(t)):
+                loop = lp
+    if loop is None:
+        return None
+    pops, pushes, cur = [], [], None
+    for n in ast.walk(loop):
+        if isinstance(n, ast.Call) and isinstance(n.func, ast.Attribute) and isinstance(n.func.value, ast.Name) and n.func.value.id == work:
+            m = n.func.attr
+            if m in ("pop", "popleft"):
+                kind = "lifo"
+                if m == "popleft" or (n.args and not (isinstance(n.args[0], ast.UnaryOp) and isinstance(n.args[0].op, ast.USub))):
+                    kind = "fifo"
+                pops.append((n, kind))
+            elif m in ("extend", "append", "appendleft", "extendleft", "insert"):
+                pushes.append(n)
+    for a in ast.walk(loop):
+        if isinstance(a, ast.Assign) and len(a.targets) == 1 and isinstance(a.targets[0], ast.Name) and any(a.value is p for p, _ in pops):
+            cur = a.targets[0].id
+        if isinstance(a, ast.AugAssign) and isinstance(a.target, ast.Name) and a.target.id == work:
+            pushes.append(a)
+    return {"loop": loop, "work": work, "cur": cur, "pops": pops, "pushes": pushes}
+
+
+def check_worklist(ctx, rep, fi, wl, node_calls, nparam, mp, meta):
+    w = ctx.world
+    ft = w.types(fi)
+    lp, cur = wl["loop"], wl["cur"]
+    rep.count("descent loops")
+    rep.count("anchors in validate.tree", len(node_calls) + 1)
+    if cur is None or len(wl["pops"]) != 1:
+        rep.add("R1", fi.qname, lp.test, "work-list walk: the node taken from the work list is not bound exactly once per round", fi.loc(lp))
+        return
+    pop, kind = wl["pops"][0]
+    own = []
+    for c in node_calls:
+        am = w.arg_map(w.resolve_call(ft, c)[0], c)
+        vals = list(am.values())
+        if any(isinstance(a, ast.Name) and a.id == cur for a in vals) and any(isinstance(a, ast.Name) and a.id == mp for a in vals) and any(x is c for x in ast.walk(lp)):
+            own.append(c)
+    rep.oblige(("R1", "node-call"), bool(own))
+    if not own:
+        rep.add("R1", fi.qname, "node(n, errs)", "the tree walk does not validate the node it takes from the work list with the caller's error list", fi.loc(lp))
+        return
+    bad = [x for x in ast.walk(lp) if isinstance(x, (ast.Break, ast.Continue, ast.Return, ast.Try))]
+    rep.oblige(("R1", "no-exit", "worklist"), not bad)
+    if bad:
+        rep.add("R1", fi.qname, bad[0], f"`{type(bad[0]).__name__.lower()}` inside the work-list loop: some nodes may not be validated", fi.loc(bad[0]))
+    # what is pushed: all children of the current node, reversed for a LIFO list (pre-order, document order)
+    def pushed(e):
+        """(owner expr, reversed?) of the pushed sequence"""
+        rev = False
+        if isinstance(e, ast.Call) and isinstance(e.func, ast.Name) and e.func.id == "reversed" and len(e.args) == 1:
+            rev, e = True, e.args[0]
+        elif isinstance(e, ast.Subscript) and isinstance(e.slice, ast.Slice) and e.slice.lower is None and e.slice.upper is None \
+                and isinstance(e.slice.step, ast.UnaryOp) and isinstance(e.slice.step.op, ast.USub) and norm(e.slice.step.operand) == "1":
+            rev, e = True, e.value
+        r = children_owner(e)
+        return (r[0], rev) if r else None
+    pushes = wl["pushes"]
+    if len(pushes) != 1:
+        rep.add("R1", fi.qname, lp.test, f"work-list walk with {len(pushes)} push sites: coverage and order of the children cannot be established", fi.loc(lp))
+        return
+    p = pushes[0]
+    seq = p.value if isinstance(p, ast.AugAssign) else (p.args[0] if p.args and p.func.attr in ("extend",) else None)
+    r = pushed(seq) if seq is not None else None
+    ok = r is not None and isinstance(r[0], ast.Name) and r[0].id == cur
+    rep.oblige(("R1", "iterable", "worklist"), ok)
+    if not ok:
+        rep.add("R1", fi.qname, p, f"the work list is not extended by all children of `{cur}`", fi.loc(p))
+        return
+    ok = (kind == "lifo" and r[1])
+    rep.oblige(("R1", "order", "worklist"), ok)
+    if not ok:
+        rep.add("R1", fi.qname, pop, "the work list is not a stack refilled with the children in reverse: nodes are not visited in document order "
+                "(pre-order), so the collected errors come out in a different order and fail-fast mode raises a different error", fi.loc(pop))
+    # dominance: node call before the push, push only on the non-metadata side, by marker dataflow
+    mts = [m for m in meta_tests(ctx, fi, meta) if m[1] == cur]
+    if not mts:
+        rep.oblige(("R1", "cut-off"), False)
+        rep.add("R1", fi.qname, "metadata cut-off", f"no test of `{cur}.name` against names.METADATA guards the descent: content below a "
+                f"metadata element would influence the outcome", fi.loc(lp))
+        return
+    dom = MarkDomain()
+    for (cmp_, subj, eq) in mts:
+        dom.mark_test(cmp_, if_true=["META"] if eq else ["NONMETA"], if_false=["NONMETA"] if eq else ["META"])
+    for c in own:
+        dom.mark(c, "NODECALL")
+    dom.mark(pop, "POP")
+    dom.probe(p if isinstance(p, ast.Call) else p.value)
+    run_marks(ctx, fi, dom)
+    must = must_at(dom, p if isinstance(p, ast.Call) else p.value) or frozenset()
+    rep.count("recursive calls")
+    ok = "NODECALL" in must and "NONMETA" in must
+    rep.oblige(("R1", "dominance", "worklist"), ok)
+    if "NODECALL" not in must:
+        rep.add("R1", fi.qname, p, "the node's own validation does not precede the descent on every path", fi.loc(p))
+    if "NONMETA" not in must:
+        rep.add("R1", fi.qname, p, "the descent is reachable for a metadata element: content below metadata influences the outcome", fi.loc(p))
+    # the push is unconditional apart from the metadata test
+    from ..condeval import enclosing_ifs
+    gs = [g for (g, b) in enclosing_ifs(fi, p if not isinstance(p, ast.Call) else next(s for s in ast.walk(lp) if isinstance(s, ast.Expr) and s.value is p))
+          if any(x is g for x in ast.walk(lp))]
+    extra = [g for g in gs if not any(g.test is m[0] or any(x is m[0] for x in ast.walk(g.test)) for m in mts)]
+    rep.oblige(("R1", "unconditional", "worklist"), not extra)
+    if extra:
+        rep.add("R1", fi.qname, extra[0].test, "the descent depends on a test other than the metadata cut-off: some children are skipped", fi.loc(extra[0]))
+
+
 def rule_r1(ctx, rep):
     prog = ctx.prog
     w = ctx.world
@@ -89,6 +214,13 @@ def rule_r1(ctx, rep):
                     node_calls.append(n)
                 if tg.func is not None and tg.func.qname == TREE:
                     rec_calls.append(n)
+    if not rec_calls:
+        wl = worklist_form(fi, nparam)
+        if wl is not None:
+            check_worklist(ctx, rep, fi, wl, node_calls, nparam, mp, meta)
+            rep.floor("anchors in validate.tree", 2)
+            rep.floor("descent loops", 1)
+            return
     rep.count("anchors in validate.tree", len(node_calls) + len(rec_calls))
     tries = [t for t in ast.walk(fi.node) if isinstance(t, ast.Try)]
     own = []
@@ -224,6 +356,10 @@ def rule_r2(ctx, rep):
             subjects = {f"{fi.params[0]}._node", fi.params[1]}
         else:
             subjects = {fi.params[0]}
+            if q == TREE:
+                wl = worklist_form(fi, fi.params[0])
+                if wl is not None and wl["cur"]:
+                    subjects.add(wl["cur"])
         wrong = [m for m in mts if m[1] not in subjects]
         mts = [m for m in mts if m[1] in subjects]
         if wrong and not mts:
